@@ -84,10 +84,11 @@ fn enumerate<S: MutSpec>(spec: &S, tier: Tier, f: &mut dyn FnMut(Case) -> bool) 
         }
         let limit = spec.full_mutation_limit();
         let positions: Vec<usize> = if len <= limit { (0..len).collect() } else { (0..96).chain(len - 32..len).collect() };
-        // substitution of every byte by 8 values
+        // substitution of every byte by up to 12 values
         for &i in &positions {
             let b = seed.bytes[i];
-            let mut vals = vec![0x00, 0x01, 0x7F, 0x80, 0xFE, 0xFF, b ^ 0x01, b ^ 0x80];
+            // hostile extremes, the small values that enum-like / level-like header bytes take, and the neighbours of the byte itself
+            let mut vals = vec![0x00, 0x01, 0x02, 0x03, 0x7F, 0x80, 0xFE, 0xFF, b ^ 0x01, b ^ 0x80, b.wrapping_add(1), b.wrapping_sub(1)];
             vals.sort_unstable();
             vals.dedup();
             for v in vals {
